@@ -25,7 +25,7 @@ def FLOORS(tier):
     f = {"constraint-histories": 350 if q else 10000, "reductions": 120 if q else 4000, "partial-substitution": 80,
          "arbitrary-float-weight": 80, "logical-method": 100, "class:PCBO": 100, "class:PCSO": 100,
          "symbol-really-present": 300 if q else 9000, "independence-probes": 300, "reduction:nothing-to-reduce": 15,
-         "subs-form:dict": 60, "subs-form:pairs": 60, "subs-form:positional": 40, "huge-weight": 60,
+         "subs-form:dict": 60, "subs-form:pairs": 60, "subs-form:positional": 40, "huge-weight": 60, "symbol-inside-constraint-polynomial": 60,
          "reduction:symbolic-model-coefficients": 30}
     for s in C.SHAPES:
         f["shape:" + s] = 8 if q else 300
@@ -112,9 +112,39 @@ def case(ctx, rng, idx):
                 kw["bounds"] = (float(tab.min()), float(tab.max()))
             steps.append(("rel", R, P, kw, newsym(), shape))
 
+    if len(labs) >= 3 and rng.random() < 0.3:
+        # the documented "symbols inside the constraint polynomial" use: one coefficient (or the constant) of P is itself a
+        # symbol, bounds are supplied; shapes that no special form matches for any value (coefficients 2 / -1 / 3)
+        x_, y_, z_ = rng.sample(labs, 3)
+        R = rng.choice(["eq", "le", "ge", "lt", "gt"])
+        sp = sympy.Symbol("p%d" % len(syms))
+        if R == "eq" or rng.random() < 0.4:
+            val = rng.choice([2, 3])
+            Pn = {(x_,): val, (y_,): -1, ((z_, x_) if rng.random() < 0.5 else (z_,)): 2, (): rng.choice([-1, 0, 1])}
+            where = (x_,)
+        else:
+            val = rng.choice([-3, -2, 2])
+            Pn = {(x_,): 2, (y_,): -1, (z_,): rng.choice([2, 3]), (): val}
+            where = ()
+        syms[sp] = val
+        pk = ref.from_raw(kind, Pn)
+        tab = ref.table(pk, sorted(pk.vars(), key=repr))
+        kw = {"bounds": (float(tab.min()), float(tab.max()))}
+        if R != "eq":
+            kw["log_trick"] = rng.random() < 0.5
+        steps.append(("relsym", R, Pn, kw, newsym(), where, sp))
+        ctx.cat("symbol-inside-constraint-polynomial")
+
     def build(symbolic):
         H = T()
         for st in steps:
+            if st[0] == "relsym":
+                P_ = dict(st[2])
+                if symbolic:
+                    P_[st[5]] = st[6]
+                lam = st[4] if symbolic else syms[st[4]]
+                getattr(H, "add_constraint_%s_zero" % st[1])(P_, lam=lam, **st[3])
+                continue
             if st[0] == "objective":
                 coef = (st[2] if symbolic else syms[st[2]]) if st[2] is not None else 1
                 for k, v in st[1].items():
@@ -140,7 +170,7 @@ def case(ctx, rng, idx):
     for st in steps:
         if st[0] == "gate":
             ctx.cat("logical-method")
-        elif st[0] == "rel":
+        elif st[0] == "rel" and len(st) == 6:
             ctx.cat("shape:" + st[5])
             ctx.cat("rel:" + st[1])
     snap = dict(Hs)
@@ -187,6 +217,10 @@ def case(ctx, rng, idx):
         ctx.violation("subs:type-changed", "subs returned %s" % type(Hn).__name__, w)
         return
     tol = 1e-9
+    left = {k: (v, type(v).__name__) for k, v in Hn.items() if isinstance(v, sympy.Basic)}
+    if left:
+        ctx.violation("subs:sympy-objects-left", "every symbol was substituted by a number, yet coefficients are still sympy objects: %r" % (dict(list(left.items())[:3]),), w)
+        return
     a, b = numeric_terms(Hn, tol), numeric_terms(Hc, tol)
     if a is None:
         ctx.violation("subs:symbols-left", "coefficients still symbolic after substituting every symbol: %r" % {k: v for k, v in Hn.items() if hasattr(v, "free_symbols") and v.free_symbols}, w)
@@ -242,7 +276,7 @@ def reduction_case(ctx, rng):
     form = rng.choice(["qubo", "quso", "pubo", "puso"])
     deg = rng.choice([2, 3])
     exact = rng.random() < 0.7
-    c = rng.choice([0.5, 1, 2, 4, 16, 2.0 ** 40]) if exact else round(rng.uniform(0.1, 9), 6)
+    c = rng.choice([0.5, 1, 2, 4, 16, 2.0 ** 40, 3, 5]) if exact else round(rng.uniform(0.1, 9), 6)
     lam = sympy.Symbol("lam")
     w = {"class": cname, "terms": dict(M), "form": form, "deg": deg, "value": c}
     if rng.random() < 0.3:
@@ -310,6 +344,10 @@ def reduction_case(ctx, rng):
         return
     if type(Dn) is not type(Dc):
         ctx.violation("subs:type-changed:reduced-form", "subs returned %s, numeric build %s" % (type(Dn).__name__, type(Dc).__name__), w)
+        return
+    left = {k: (v, type(v).__name__) for k, v in Dn.items() if isinstance(v, sympy.Basic)}
+    if left:
+        ctx.violation("subs:sympy-objects-left:reduced-form", "the symbol was substituted by the number %r, yet coefficients are still sympy objects: %r" % (c, dict(list(left.items())[:3])), w)
         return
     a, b = numeric_terms(Dn, 1e-9), numeric_terms(Dc, 1e-9)
     if a is None:
